@@ -23,11 +23,13 @@ OutFile == Env("VERIF_GEN_OUT", "/tmp/c11pairs.ndjson")
 (* list of scopes) whose size is varied for equal pairs; hdrdef = headers the mechanism adds   *)
 (* to the endpoint by itself (Accept, Content-Type)                                             *)
 Mechs == <<
-  [m |-> "remote_authorizer", policy |-> <<"expressions">>,
-   inputs |-> <<"ep_url", "ep_method", "ep_headers", "id", "fwd_headers", "payload", "ttl", "subject_id", "subject_attr", "values">>,
+  (* expressions_error: rule-level expressions whose evaluation fails on the answer (no verdict at all); *)
+  (* rendered_payload: same template, rendered from another request                                       *)
+  [m |-> "remote_authorizer", policy |-> <<"expressions", "expressions_error">>,
+   inputs |-> <<"ep_url", "ep_method", "ep_headers", "id", "fwd_headers", "payload", "ttl", "subject_id", "subject_attr", "values", "rendered_payload">>,
    shifts |-> <<"ep_headers.k|v", "id|fwd_headers", "fwd_headers|payload", "values.k|v">>, hdr |-> TRUE, val |-> TRUE, hdrdef |-> 0],
   [m |-> "generic_contextualizer", policy |-> <<>>,
-   inputs |-> <<"ep_url", "ep_method", "ep_headers", "id", "fwd_headers", "fwd_cookies", "payload", "ttl", "subject_id", "subject_attr", "values">>,
+   inputs |-> <<"ep_url", "ep_method", "ep_headers", "id", "fwd_headers", "fwd_cookies", "payload", "ttl", "subject_id", "subject_attr", "values", "rendered_payload">>,
    shifts |-> <<"ep_headers.k|v", "fwd_headers|fwd_cookies", "fwd_cookies|payload", "values.k|v">>, hdr |-> TRUE, val |-> TRUE, hdrdef |-> 0],
   [m |-> "generic_authenticator", policy |-> <<"session_lifespan">>,
    inputs |-> <<"ep_url", "ep_headers", "credential", "payload">>,
